@@ -33,6 +33,22 @@ type Poly struct {
 	terms map[string]*big.Rat
 	monos map[string]Mono
 	Trunc bool // some integer division / truncation occurred on the way
+	// Div: a non-constant value was divided (and thereby rounded to the type's precision) on the way.
+	// Hazard: such a quotient was multiplied by a non-constant afterwards -- equal as a rational, but the rounding
+	// error of the quotient is scaled up by the factor (a/c*b instead of a*b/c). String() shows it, so that no
+	// expected normal form matches.
+	Div    bool
+	Hazard string
+}
+
+func (p *Poly) inherit(qs ...*Poly) {
+	for _, q := range qs {
+		p.Trunc = p.Trunc || q.Trunc
+		p.Div = p.Div || q.Div
+		if p.Hazard == "" {
+			p.Hazard = q.Hazard
+		}
+	}
 }
 
 func newPoly() *Poly { return &Poly{terms: map[string]*big.Rat{}, monos: map[string]Mono{}} }
@@ -79,7 +95,7 @@ func (p *Poly) addTerm(m Mono, c *big.Rat) {
 
 func (p *Poly) Add(q *Poly) *Poly {
 	r := newPoly()
-	r.Trunc = p.Trunc || q.Trunc
+	r.inherit(p, q)
 	for k, c := range p.terms {
 		r.addTerm(p.monos[k], c)
 	}
@@ -91,7 +107,7 @@ func (p *Poly) Add(q *Poly) *Poly {
 
 func (p *Poly) Neg() *Poly {
 	r := newPoly()
-	r.Trunc = p.Trunc
+	r.inherit(p)
 	for k, c := range p.terms {
 		r.addTerm(p.monos[k], new(big.Rat).Neg(c))
 	}
@@ -102,7 +118,16 @@ func (p *Poly) Sub(q *Poly) *Poly { return p.Add(q.Neg()) }
 
 func (p *Poly) Mul(q *Poly) *Poly {
 	r := newPoly()
-	r.Trunc = p.Trunc || q.Trunc
+	r.inherit(p, q)
+	if _, pc := p.Const(); !pc {
+		if _, qc := q.Const(); !qc && r.Hazard == "" {
+			if p.Div {
+				r.Hazard = "quotient (" + p.plain() + ") multiplied by (" + q.plain() + ")"
+			} else if q.Div {
+				r.Hazard = "quotient (" + q.plain() + ") multiplied by (" + p.plain() + ")"
+			}
+		}
+	}
 	for k1, c1 := range p.terms {
 		for k2, c2 := range q.terms {
 			m := Mono{}
@@ -137,12 +162,33 @@ func (p *Poly) Quo(q *Poly) *Poly {
 	} else {
 		inv.addTerm(Mono{"{" + q.String() + "}": -1}, big.NewRat(1, 1))
 	}
-	r := p.Mul(inv)
+	hz := p.Hazard
+	if hz == "" {
+		hz = q.Hazard
+	}
+	pd, qd := p.Div, q.Div
+	p2 := *p
+	p2.Div, p2.Hazard = false, ""
+	r := p2.Mul(inv)
 	r.Trunc = p.Trunc || q.Trunc
+	r.Hazard = hz
+	_, pconst := p.Const()
+	one := false
+	if c, ok := q.Const(); ok && c.IsInt() && c.Num().IsInt64() && (c.Num().Int64() == 1 || c.Num().Int64() == -1) {
+		one = true
+	}
+	r.Div = pd || qd || (!pconst && !one)
 	return r
 }
 
 func (p *Poly) String() string {
+	if p.Hazard != "" {
+		return p.plain() + " [precision: " + p.Hazard + "]"
+	}
+	return p.plain()
+}
+
+func (p *Poly) plain() string {
 	var ks []string
 	for k := range p.terms {
 		ks = append(ks, k)
